@@ -85,16 +85,24 @@ func (t *Term) addSupp(v *Term) {
 	t.nsup++
 }
 
-// SingleSmallVar returns the only variable t depends on if that variable is at most 8 bits wide.
+// SingleSmallVar returns the only variable t depends on if that variable is a Bool or at most 8 bits wide.
 func (t *Term) SingleSmallVar() *Term {
 	if t.many || t.nsup != 1 {
 		return nil
 	}
 	v := t.supp[0]
-	if v.W == 0 || v.W > 8 {
+	if v.W > 8 {
 		return nil
 	}
 	return v
+}
+
+// nvals is the number of values of a small variable (Bool variables have W == 0).
+func nvals(v *Term) int {
+	if v.W == 0 {
+		return 2
+	}
+	return 1 << v.W
 }
 
 func (t *Term) IsConst() bool { return t.Op == OpConst }
